@@ -172,6 +172,17 @@ func rulePackKey(w *World, r *Report, in map[*ssa.Function]bool) {
 				n++
 			}
 			key := fmt.Sprintf("PACKKEY / %s / packed key#%d", name, ord)
+			// a part that is biased, masked or otherwise reduced before it is packed (z + 2^35
+			// after a range check, x & mask): its width is not the width of its kind
+			reduced := func(v ssa.Value) bool {
+				_, isOp := stripAllConv(v).(*ssa.BinOp)
+				return isOp
+			}
+			if reduced(lo) || reduced(sh.X) {
+				r.Add(Obligation{Rule: "PACKKEY", Key: key, Pos: w.Pos(b.Pos()), Status: Undecided, Canary: can,
+					Detail: "a part of the packed key is biased or masked before it is packed (" + shortInstr(b) + "): its width was not determined"})
+				return
+			}
 			switch {
 			case int64(bl) > k:
 				r.Add(Obligation{Rule: "PACKKEY", Key: key, Pos: w.Pos(b.Pos()), Status: Violated, Canary: can,
